@@ -3,7 +3,7 @@
    Z / positive / nat stay inductive.  Run with cwd = /verif/build/ml. *)
 Require Extraction.
 Require Import ExtrOcamlBasic.
-From LT Require Import Base.Prelude Base.CInt Model.DataTracker Model.AckTracker Model.IPReasm Model.PDUTree Model.Addr Model.RadioTap Model.DNS Model.Checksum Model.TcpOpts Model.Match Model.Follower Model.Wifi Model.Capture Model.TLV.
+From LT Require Import Base.Prelude Base.CInt Model.DataTracker Model.AckTracker Model.IPReasm Model.PDUTree Model.Addr Model.RadioTap Model.DNS Model.Checksum Model.TcpOpts Model.Match Model.Follower Model.Wifi Model.Capture Model.TLV Model.LegacyStream.
 Extraction Language OCaml.
 Extraction "models.ml" Z.add Z.mul Z.sub Z.opp Z.div_eucl Z.compare Z.of_nat
-  dt_step dt_new ack_step ack_new ipr_step tree_step ts0 addr_step rt_step dns_step sum_step tcpo_step match_step fo_step fo_new wifi_step cap_step tlv_step.
+  dt_step dt_new ack_step ack_new ipr_step tree_step ts0 addr_step rt_step dns_step sum_step tcpo_step match_step fo_step fo_new wifi_step cap_step tlv_step ls_step.
